@@ -121,7 +121,22 @@ func preserved(in *oracleIn, tb, ta *TableDump, specName string, useGen bool) (v
 			plain[cb.Name] = pair{bi: bi, ai: ai, name: cb.Name, skip: true}
 			continue
 		}
-		if normType(ca.Type) != normType(cb.Type) {
+		typeDiffers := normType(ca.Type) != normType(cb.Type)
+		if typeDiffers {
+			// Round 5: "the same type" is what the user declares.  When the current and the desired schema declare the
+			// column with the same type text, the re-created table must declare it that way too: if the planner (or
+			// ParseType / FormatType on the way) rewrites the name to one with another affinity, the row copy converts the
+			// stored values although the diff shows no change for the column.  Such a column is judged like any other.
+			if a, b := in.cur.table(specName), in.des.table(specName); a != nil && b != nil {
+				if sa, sb := a.col(cb.Name), b.col(cb.Name); sa != nil && sb != nil && sa.Gen == "" && sb.Gen == "" && sa.Type == sb.Type {
+					if affinity(ca.Type) != affinity(cb.Type) {
+						vs = append(vs, Verdict{"untouched-type-rewritten", fmt.Sprintf("mode=%s table=%s column %s is declared %q in the current and in the desired schema; the table was re-created with the column declared %q (affinity %s) instead of %q (affinity %s)", in.mode, tb.Name, cb.Name, sa.Type, ca.Type, affinity(ca.Type), cb.Type, affinity(cb.Type))})
+					}
+					typeDiffers = false
+				}
+			}
+		}
+		if typeDiffers {
 			// NOT NULL + DEFAULT over existing NULLs together with a type change: the values are
 			// converted (not judged), but every NULL must have become the default
 			if cb.Hidden == 0 && ca.Hidden == 0 && !cb.NotNull && ca.NotNull && ca.Dflt != "" &&
@@ -284,7 +299,9 @@ func (in *oracleIn) check() (vs []Verdict, stats map[string]int) {
 		tb := in.before.Tables[n]
 		ta := in.after.Tables[n]
 		kind, inSet := in.changed[n]
-		if !refused && in.des.table(n) == nil {
+		// a table the desired schema does not have is dropped by the change set -- unless its changes were excluded
+		// from the set (Case.Exclude, round 5): then it is an untouched table like any other
+		if !refused && in.des.table(n) == nil && inSet {
 			stats["dropped-table"]++
 			continue
 		}
